@@ -107,7 +107,7 @@ func (c *FnCtx) doCall(frame *Frame, st *State, in ssa.Instruction, call *ssa.Ca
 	var key string
 	var callee *ssa.Function
 	if call.IsInvoke() {
-		recv := call.Value.Type()
+		recv := types.Unalias(call.Value.Type())
 		if n, ok := recv.(*types.Named); ok && n.Obj().Pkg() != nil {
 			key = n.Obj().Pkg().Path() + "." + n.Obj().Name() + "." + call.Method.Name()
 		} else if n, ok := recv.(*types.Named); ok {
